@@ -181,6 +181,9 @@ def _functions(tree, prefix=''):
 
 def build_reference(root: Path) -> dict:
     ref = {}
+    from . import globalnorm
+    ref.update(globalnorm.build_reference_part(
+        {str(p.relative_to(root)): ast.parse(p.read_text()) for p in sorted((root / 'src' / 'AEIC').rglob('*.py'))}))
     for p in sorted((root / 'src' / 'AEIC').rglob('*.py')):
         rel = str(p.relative_to(root))
         from .loader import _Canon
@@ -302,6 +305,23 @@ class _Reshape(ast.NodeTransformer):
 
 
 _REF = None
+_MOVED_INV: dict = {}   # (file B, qualname') in the current tree -> (file A, qualname) in the reference
+
+
+def set_moved(moved: dict):
+    global _MOVED_INV
+    _MOVED_INV = {tuple(v): tuple(k) for k, v in moved.items()}
+
+
+def ref_key(rel: str, q: str) -> tuple[str, str]:
+    return _MOVED_INV.get((rel, q), (rel, q))
+
+
+def _rd(R, section, rel, q):
+    rrel, rq = ref_key(rel, q)
+    d = R.get(rrel) if section is None else R.get(section, {}).get(rrel)
+    return (d or {}).get(rq)
+
 
 
 def _load_ref():
@@ -343,6 +363,41 @@ def _alpha_and_reshape(fn, want, sh) -> tuple[int, dict]:
     return n, mapping
 
 
+def _rename_params(fn, ref_params, ref_sig) -> int:
+    """a parameter renamed in place (same position, same count) gets its reference name back inside the function;
+    keyword arguments at call sites follow in reshape_calls"""
+    if not ref_params:
+        return 0
+    a = fn.args
+    cur = a.posonlyargs + a.args + a.kwonlyargs
+    n_static = 0
+    if len(cur) + 1 == len(ref_params) and ref_params[0] == 'self' and not a.posonlyargs and \
+            any(isinstance(d, ast.Name) and d.id == 'staticmethod' for d in fn.decorator_list) and \
+            'self' not in {x.id for x in ast.walk(fn) if isinstance(x, ast.Name)}:
+        # a method that does not use `self` was made a static method: calls through an instance are unaffected
+        fn.decorator_list = [d for d in fn.decorator_list if not (isinstance(d, ast.Name) and d.id == 'staticmethod')]
+        a.args.insert(0, ast.arg(arg='self', annotation=None))
+        ast.copy_location(a.args[0], fn)
+        cur = a.posonlyargs + a.args + a.kwonlyargs
+        n_static = 1
+    if len(cur) != len(ref_params) or [x.arg for x in cur] == ref_params:
+        return n_static
+    used = {x.id for x in ast.walk(fn) if isinstance(x, ast.Name)} | {x.arg for x in cur}
+    mp = {}
+    for x, want in zip(cur, ref_params):
+        if x.arg != want:
+            if want in used or x.arg in ref_params:
+                return 0
+            mp[x.arg] = want
+    for x in cur:
+        if x.arg in mp:
+            x.arg = mp[x.arg]
+    for st in fn.body:
+        _Sub(mp).visit(st)
+    fn._param_renames = mp
+    return len(mp)
+
+
 def normalise(tree: ast.Module, rel: str, digest: str | None = None) -> tuple[ast.Module, int]:
     """Bring the functions of a file that differs from the reference back to the
     reference's spelling where that is behaviour-preserving: local names (by
@@ -358,29 +413,29 @@ def normalise(tree: ast.Module, rel: str, digest: str | None = None) -> tuple[as
     if os.environ.get('AEIC_VERIF_NO_PRENORM') != '1':
         from . import prenorm
         tree, pre = prenorm.prenormalise(tree, rel, R)
-    known = set(R.get('__funcs__', {}).get(rel, []))
-    sig, shp = R.get(rel) or {}, R.get('__shapes__', {}).get(rel, {})
-    fsig, fshp = R.get('__flat__', {}).get(rel, {}), R.get('__flatshapes__', {}).get(rel, {})
-    tmp = R.get('__temps__', {}).get(rel, {})
+    known = set(R.get('__funcs__', {}).get(rel, [])) | {q for (r, q) in _MOVED_INV if r == rel}
     done = pre
     for q, fn in list(_functions(tree)):
         if q not in known:
             continue
-        ref_temps = sorted(s['name'] for s in tmp.get(q, []) if 'canon' not in s)
+        sig_q, shp_q = _rd(R, None, rel, q), _rd(R, '__shapes__', rel, q)
+        fsig_q, fshp_q = _rd(R, '__flat__', rel, q), _rd(R, '__flatshapes__', rel, q)
+        done += _rename_params(fn, _rd(R, '__params__', rel, q), sig_q)
+        ref_temps = sorted(s['name'] for s in (_rd(R, '__temps__', rel, q) or []) if 'canon' not in s)
         # (A) the function as written: same temporaries as the reference once names are normalised?
         trial = copy.deepcopy(fn)
-        _alpha_and_reshape(trial, sig.get(q), shp.get(q))
+        _alpha_and_reshape(trial, sig_q, shp_q)
         own = sorted(s['name'] for s in temps.flatten(trial, record=True) if 'canon' not in s)
         if own == ref_temps:
-            done += _alpha_and_reshape(fn, sig.get(q), shp.get(q))[0]
+            done += _alpha_and_reshape(fn, sig_q, shp_q)[0]
             continue
         # (B) temporaries were added or removed: compare in flattened form, then give the function the
         #     reference's temporaries back (reextract_all, after call reshaping)
         steps = temps.flatten(fn, record=True, keep_nodes=True)
-        n, mapping = _alpha_and_reshape(fn, fsig.get(q), fshp.get(q))
+        n, mapping = _alpha_and_reshape(fn, fsig_q, fshp_q)
         done += n + len(steps)
         fn._own_steps = [(mapping.get(s['name'], s['name']), s['node']) for s in steps if 'canon' not in s]
-        fn._ref_names = set(sig.get(q) or ())
+        fn._ref_names = set(sig_q or ())
         fn._flattened = True
     ast.fix_missing_locations(tree)
     return tree, done
@@ -411,11 +466,25 @@ def reshape_calls(prog) -> int:
     calls = ref.get('__calls__', {})
     digests = ref.get('__digest__', {})
     done = 0
+    # keyword arguments that name a parameter which was renamed back (see _rename_params)
     for rel, m in prog.modules.items():
-        if rel not in calls or digests.get(rel) == m.digest:
+        if digests.get(rel) == m.digest:
             continue
-        for q, fi in m.functions.items():
-            want = calls[rel].get(q.split('@')[0])
+        for q, fi in list(m.functions.items()):
+            for c in [x for x in ast.walk(fi.node) if isinstance(x, ast.Call) and x.keywords]:
+                callee = resolve_call(prog, fi, c)
+                mp = getattr(callee.node, '_param_renames', None) if callee is not None else None
+                if mp:
+                    for k in c.keywords:
+                        if k.arg in mp:
+                            k.arg = mp[k.arg]
+                            done += 1
+    for rel, m in prog.modules.items():
+        if digests.get(rel) == m.digest:
+            continue
+        for q, fi in list(m.functions.items()):
+            rrel, rq = ref_key(rel, q.split('@')[0])
+            want = calls.get(rrel, {}).get(rq)
             if not want:
                 continue
             for c in [x for x in ast.walk(fi.node) if isinstance(x, ast.Call)]:
@@ -480,7 +549,8 @@ def reextract_all(prog) -> int:
         for q, fi in m.functions.items():
             if not getattr(fi.node, '_flattened', False):
                 continue
-            steps = tmp.get(rel, {}).get(q.split('@')[0]) or []
+            rrel, rq = ref_key(rel, q.split('@')[0])
+            steps = tmp.get(rrel, {}).get(rq) or []
             k = temps.reextract(fi.node, steps)
             k += temps.restore_own(fi.node, [(n, v) for n, v in fi.node._own_steps if n in fi.node._ref_names])
             done += k
